@@ -337,9 +337,11 @@ Section Check.
   Variable p : iprog.
   Variable voff : N.
   Variable S : list summ.
+  (* the contexts among which the entry state of every callee must be found (None: not asked) *)
+  Variable cov : option (list cert).
 
   (* a callsite is abstracted by all the summaries whose precondition contains the callee's
-     entry state; None = no summary applies *)
+     entry state; None = no summary applies, or the callee's entry state is in no context *)
   Definition chk_call (outs : list var) (g : nat) (ins : list var) (e : env) : option env :=
     if e_is_bot e then Some e
     else
@@ -347,11 +349,24 @@ Section Check.
       let fi := f_ins fn in
       let fo := f_outs fn in
       let ce := callee_entry voff outs ins fi fo e in
-      let k sm := cont voff outs ins fi fo e (e_project (s_post sm) (fi ++ fo)) in
-      match filter (fun sm => Nat.eqb (s_fn sm) g && e_leq ce (s_pre sm)) S with
-      | [] => None
-      | m :: r => Some (fold_left (fun acc sm => e_meet acc (k sm)) r (k m))
-      end.
+      (* the inputs are read-only: if the callee's entry state is incompatible with what the
+         summary says about the inputs, the call does not return *)
+      let k sm := if e_is_bot (e_meet ce (e_project (s_post sm) fi)) then EBot
+                  else cont voff outs ins fi fo e (e_project (s_post sm) (fi ++ fo)) in
+      if match cov with
+         | None => true
+         | Some cs => existsb (fun c => Nat.eqb (ct_fn c) g && e_leq ce (ct_pre c)) cs
+         end
+      then
+        match f_exit fn with
+        | None => Some EBot          (* a callee without exit block does not return *)
+        | Some _ =>
+          match filter (fun sm => Nat.eqb (s_fn sm) g && e_leq ce (s_pre sm)) S with
+          | [] => None
+          | m :: r => Some (fold_left (fun acc sm => e_meet acc (k sm)) r (k m))
+          end
+        end
+      else None.
 
   Definition chk_stmt (st : istmt) (e : env) : option env :=
     match st with
@@ -374,31 +389,40 @@ Section Check.
                       | None => false
                       end) (seq 0 (fn_nblocks fn)) &&
     forallb (fun e => e_leq (ct_tpost c (fst e)) (ct_tpre c (snd e))) (f_edges fn).
-
-  (* a summary is justified by a context of the same function: its precondition is inside the
-     context's one, the context's exit invariant projected on the formals is inside its
-     postcondition *)
-  Definition summ_ok (sm : summ) (c : cert) : bool :=
-    let fn := get_fn p (s_fn sm) in
-    Nat.eqb (ct_fn c) (s_fn sm) && e_leq (s_pre sm) (ct_pre c) &&
-    match f_exit fn with
-    | Some x => e_leq (e_project (ct_tpost c x) (fn_formals fn)) (s_post sm)
-    | None => true
-    end.
 End Check.
 
+(* a summary is justified by a context of the same function: its precondition is inside the
+   context's one, the context's exit invariant projected on the formals is inside its
+   postcondition *)
+Definition summ_ok (p : iprog) (sm : summ) (c : cert) : bool :=
+  let fn := get_fn p (s_fn sm) in
+  Nat.eqb (ct_fn c) (s_fn sm) && e_leq (s_pre sm) (ct_pre c) &&
+  match f_exit fn with
+  | Some x => e_leq (e_project (ct_tpost c x) (fn_formals fn)) (s_post sm)
+  | None => true
+  end.
+
+(* rcerts: the contexts that cover the executions (every entry function started from init, every
+   callee entry state reached from them); scerts: the summaries, each with the context that
+   justifies it *)
+Definition ig_check (p : iprog) (voff : N) (entries : list nat) (init : env)
+           (tpre tpost : nat -> nat -> env)
+           (rcerts : list cert) (scerts : list (summ * cert)) : bool :=
+  let S := map fst scerts in
+  iprog_wfb p voff &&
+  forallb (cert_ok p voff S None) (map snd scerts) &&
+  forallb (cert_ok p voff S (Some rcerts)) rcerts &&
+  forallb (fun q => summ_ok p (fst q) (snd q)) scerts &&
+  forallb (fun f => existsb (fun c => Nat.eqb (ct_fn c) f && e_leq init (ct_pre c)) rcerts) entries &&
+  forallb (fun c => forallb (fun n => e_leq (ct_tpre c n) (tpre (ct_fn c) n) &&
+                                      e_leq (ct_tpost c n) (tpost (ct_fn c) n))
+                            (seq 0 (fn_nblocks (get_fn p (ct_fn c))))) rcerts.
+
+(* top-down analyzer: the contexts of the summaries also cover the executions *)
 Definition td_check (p : iprog) (voff : N) (entries : list nat) (init : env)
            (tpre tpost : nat -> nat -> env)
            (roots : list cert) (scerts : list (summ * cert)) : bool :=
-  let S := map fst scerts in
-  let certs := roots ++ map snd scerts in
-  iprog_wfb p voff &&
-  forallb (cert_ok p voff S) certs &&
-  forallb (fun q => summ_ok p (fst q) (snd q)) scerts &&
-  forallb (fun f => existsb (fun c => Nat.eqb (ct_fn c) f && e_leq init (ct_pre c)) roots) entries &&
-  forallb (fun c => forallb (fun n => e_leq (ct_tpre c n) (tpre (ct_fn c) n) &&
-                                      e_leq (ct_tpost c n) (tpost (ct_fn c) n))
-                            (seq 0 (fn_nblocks (get_fn p (ct_fn c))))) certs.
+  ig_check p voff entries init tpre tpost (roots ++ map snd scerts) scerts.
 
 (* ------------------------------------------------------------------ certificates (untrusted helpers)
    The tables of a context are recomputed by the intra-procedural engine, a callsite being
@@ -419,12 +443,18 @@ Section Hints.
       let fi := f_ins fn in
       let fo := f_outs fn in
       let ce := callee_entry voff outs ins fi fo e in
-      match find (fun sm => Nat.eqb (s_fn sm) g && e_leq ce (s_pre sm) && e_leq (s_pre sm) ce) S with
-      | Some sm => cont voff outs ins fi fo e (e_project (s_post sm) (fi ++ fo))
-      | None =>
-        match find (fun sm => Nat.eqb (s_fn sm) g && e_leq ce (s_pre sm)) S with
-        | Some sm => cont voff outs ins fi fo e (e_project (s_post sm) (fi ++ fo))
-        | None => cont voff outs ins fi fo e (e_project e_top (fi ++ fo))
+      let k sm := if e_is_bot (e_meet ce (e_project (s_post sm) fi)) then EBot
+                  else cont voff outs ins fi fo e (e_project (s_post sm) (fi ++ fo)) in
+      match f_exit fn with
+      | None => EBot
+      | Some _ =>
+        match find (fun sm => Nat.eqb (s_fn sm) g && e_leq ce (s_pre sm) && e_leq (s_pre sm) ce) S with
+        | Some sm => k sm
+        | None =>
+          match find (fun sm => Nat.eqb (s_fn sm) g && e_leq ce (s_pre sm)) S with
+          | Some sm => k sm
+          | None => cont voff outs ins fi fo e (e_project e_top (fi ++ fo))
+          end
         end
       end.
   Definition hint_stmt (st : istmt) (e : env) : env :=
